@@ -72,10 +72,17 @@ Definition s_tick (s : stream) : stream :=
   let '(b, r) := arrive0 (dec_head (s_pending s)) in
   s_with s (s_buf s ++ b) r (s_eager s && is_nil r).
 
+(* the reader waits: the next non-empty segment arrives alone (feed_data(b"") wakes nobody), or EOF *)
+Fixpoint next_seg (p : list (N * bytes)) : bytes * list (N * bytes) :=
+  match p with
+  | [] => ([], [])
+  | (_, seg) :: r => match seg with [] => next_seg r | _ => (seg, r) end
+  end.
 Definition s_wait (s : stream) : stream :=
-  match s_pending s with
-  | (_, seg) :: r => s_with s (s_buf s ++ seg) r (s_eager s && is_nil r)
+  let '(seg, r) := next_seg (s_pending s) in
+  match seg with
   | [] => s_with s (s_buf s) [] true
+  | _ => s_with s (s_buf s ++ seg) r (s_eager s && is_nil r)
   end.
 
 Definition s_at_eof (s : stream) : bool := s_eof s && is_nil (s_buf s).
